@@ -44,7 +44,12 @@ def run(ctx):
         ctx.missing("C09.V", "issuer decode", "no jsonwebtoken::decode whose key comes from the resolver is reachable from SDJWTVerifier::new")
         return
     ctx.floor("C09.V", "issuer decode sites", len(A.issuer_decodes), 1)
+    # a public constructor that `new` merely delegates to (`new(..) = new_with(.., DEFAULT)`) is judged as part of new's view, with new's
+    # arguments: the property is about what SDJWTVerifier::new accepts
+    delegates = set(n_ for n_ in A.new.inlined_names() if n_ in fx.fns and fx.fns[n_].raw.get("reachable_pub"))
     for (fn, b, node, _) in A.issuer_decodes:
+        if fn.name in delegates and any(f2.name == A.new.name for (f2, _b, _n, _k) in A.issuer_decodes):
+            continue
         line = fn.term(b).get("line")
         sts = vmodel.eval_validation(fx, node.kids[2])
         ctx.stats["validation_alternatives"] = len(sts)
